@@ -1,0 +1,80 @@
+//go:build verif
+
+// Contracts for the deductive verifier in /verif (govc). Comment-only.
+
+package ledger
+
+// ---- spec functions over postings -----------------------------------------------------------------
+
+//@ sumfold credits(ps []Posting, acc string, asset string) = (e.Destination == acc && e.Asset == asset) ? val(e.Amount) : 0
+//@ sumfold debits(ps []Posting, acc string, asset string) = (e.Source == acc && e.Asset == asset) ? val(e.Amount) : 0
+//@ sumfold sumAmount(ps []Posting, asset string) = e.Asset == asset ? val(e.Amount) : 0
+//@ nnfold countStr(s []string, x string) = e == x ? 1 : 0
+//@ define containsStr(s []string, x string) bool = countStr(s, x) > 0
+//@ define amountsNonNil(ps []Posting) bool = forall i int :: {ps[i]} 0 <= i && i < len(ps) ==> ps[i].Amount != nil
+//@ define isReverse(r []Posting, p []Posting) bool = len(r) == len(p) && forall i int :: {r[i]} 0 <= i && i < len(p) ==> r[i].Source == p[len(p) - 1 - i].Destination && r[i].Destination == p[len(p) - 1 - i].Source && r[i].Asset == p[len(p) - 1 - i].Asset && r[i].Amount == p[len(p) - 1 - i].Amount
+
+// ---- posting.go -----------------------------------------------------------------------------------
+
+//@ func (p Postings) Reverse() (r Postings)
+//@   property C15
+//@   ensures isReverse(r, p)
+//@   loop 1:
+//@     invariant len(postings) == len(p)
+//@     invariant forall j int :: {postings[j]} 0 <= j && j < i ==> postings[j].Source == p[j].Destination && postings[j].Destination == p[j].Source && postings[j].Asset == p[j].Asset && postings[j].Amount == p[j].Amount
+//@     invariant forall j int :: {postings[j]} i <= j && j < len(p) ==> postings[j] == p[j]
+//@   loop 2:
+//@     invariant 0 <= i && len(postings) == len(p)
+//@     invariant forall j int :: {postings[j]} (0 <= j && j < i) || (len(p) - i <= j && j < len(p)) ==> postings[j].Source == p[len(p) - 1 - j].Destination && postings[j].Destination == p[len(p) - 1 - j].Source && postings[j].Asset == p[len(p) - 1 - j].Asset && postings[j].Amount == p[len(p) - 1 - j].Amount
+//@     invariant forall j int :: {postings[j]} i <= j && j < len(p) - i ==> postings[j].Source == p[j].Destination && postings[j].Destination == p[j].Source && postings[j].Asset == p[j].Asset && postings[j].Amount == p[j].Amount
+//@     decreases len(p) - i
+
+// ---- transaction.go -------------------------------------------------------------------------------
+
+//@ func NewTransactionData() (r TransactionData)
+//@   property C15
+//@   ensures len(r.Postings) == 0 && r.Reference == ""
+
+//@ func NewTransaction() (r Transaction)
+//@   property C15
+//@   ensures len(r.Postings) == 0 && r.ID == nil && r.RevertedAt == nil && r.Reference == "" && r.Template == ""
+
+//@ func (data TransactionData) WithPostings(postings ...Posting) (r TransactionData)
+//@   property C15
+//@   ensures len(data.Postings) == 0 ==> len(r.Postings) == len(postings) && forall i int :: {r.Postings[i]} 0 <= i && i < len(postings) ==> r.Postings[i] == postings[i]
+//@   ensures r.Metadata == data.Metadata && r.Timestamp == data.Timestamp && r.Reference == data.Reference
+
+//@ func (tx Transaction) WithPostings(postings ...Posting) (r Transaction)
+//@   property C15
+//@   ensures len(tx.Postings) == 0 ==> len(r.Postings) == len(postings) && forall i int :: {r.Postings[i]} 0 <= i && i < len(postings) ==> r.Postings[i] == postings[i]
+//@   ensures r.Metadata == tx.Metadata && r.Timestamp == tx.Timestamp && r.Reference == tx.Reference && r.ID == tx.ID && r.RevertedAt == tx.RevertedAt && r.Template == tx.Template
+
+//@ func (tx Transaction) Reverse() (r Transaction)
+//@   property C15
+//@   ensures isReverse(r.Postings, tx.Postings)
+//@   ensures r.ID == nil && r.RevertedAt == nil && r.Reference == "" && r.Template == ""
+
+//@ func (tx Transaction) WithTimestamp(ts time.Time) (r Transaction)
+//@   property C15
+//@   ensures r.Timestamp == ts && r.Postings == tx.Postings && r.Metadata == tx.Metadata && r.Reference == tx.Reference && r.ID == tx.ID && r.RevertedAt == tx.RevertedAt && r.Template == tx.Template
+
+//@ func (tx Transaction) InvolvedDestinations() (ret map[string][]string)
+//@   property C06 C15
+//@   ensures ret != nil
+//@   ensures forall i int :: {tx.Postings[i]} 0 <= i && i < len(tx.Postings) ==> has(ret, tx.Postings[i].Destination) && containsStr(ret[tx.Postings[i].Destination], tx.Postings[i].Asset)
+//@   loop 1:
+//@     index k
+//@     invariant ret != nil
+//@     invariant forall i int :: {tx.Postings[i]} 0 <= i && i < k ==> has(ret, tx.Postings[i].Destination) && containsStr(ret[tx.Postings[i].Destination], tx.Postings[i].Asset)
+//@   loop 2:
+//@     invariant ret != nil
+//@     invariant forall i int :: {tx.Postings[i]} 0 <= i && i < len(tx.Postings) ==> has(ret, tx.Postings[i].Destination) && containsStr(ret[tx.Postings[i].Destination], tx.Postings[i].Asset)
+
+// ---- assumed contracts of the standard library used above -----------------------------------------------
+
+//@ assumed func sort.Strings(x []string)
+//@   modifies x
+//@   ensures len(x) == len(old(x)) && forall s string :: {countStr(x, s)} containsStr(x, s) == containsStr(old(x), s)
+
+//@ assumed func slices.Compact(s []string) (r []string)
+//@   ensures forall v string :: {countStr(r, v)} containsStr(r, v) == containsStr(s, v)
